@@ -177,6 +177,10 @@ def cmdSem (ns name : Str) (input : Val) (vars : Vars) (args : List Val) : CmdEf
     (match args with | [.bool b] => .value (.list [input, .bool b]) | _ => .unmodelled)
   else if ns == s "root" && (name == s "ident" || name == s "vol" || name == s "attr1" || name == s "attr2") then .value input
   else if ns == s "root" && name == s "boom" then .raises
+  else if ns == s "root" && name == s "tnum" then
+    (match input with
+     | .none => .value (.int 7)
+     | v => (match v.pyStr with | some x => .value (.str ('t' :: x)) | none => .raises))
   else if ns == s "root" && name == s "nocache" then .nocache input
   else if ns == s "root" && name == s "app" then
     (match input, args with | .list l, [v] => .value (.list (l ++ [v])) | _, [_] => .raises | _, _ => .unmodelled)
